@@ -99,7 +99,12 @@ class LikelihoodLoss(BaseLoss):
 
         filters = self._check_coordinate_filters(d)
         filtered_data = self._filter_data(filters, sim_data_ensemble)
-        sim_data_ensemble = np.transpose(filtered_data, (1, 2, 0))
+        # work in double precision: the squared differences of integer-typed data would wrap around
+        sim_data_ensemble = np.asarray(
+            np.transpose(filtered_data, (1, 2, 0)),
+            dtype=np.float64,
+        )
+        real_data = np.asarray(real_data, dtype=np.float64)
 
         h = self._check_bandwidth(s, d)
         sq_dists_r_t_s = (
